@@ -508,7 +508,7 @@ class Unit:
         for n2, f2 in tr.funcs.items():
             if f2 is not None and n2 not in inorder:
                 protos.append(tr.signature(f2) + ";")
-        head = "".join(parts) + exc_defs + tr.records_text() + "\n".join(tr.globals.values()) + "\n" + "\n".join(protos) + "\n" + std_contracts + std_text + "\n" + self.stubs + "\n" + self.helpers + "\n"
+        head = "".join(parts) + exc_defs + self.opts.get("pre_records", "") + tr.records_text() + "\n".join(tr.globals.values()) + "\n" + "\n".join(protos) + "\n" + std_contracts + std_text + "\n" + self.stubs + "\n" + self.helpers + "\n"
         text = head
         for n, t in fn_texts:
             start = text.count("\n") + 1
